@@ -141,8 +141,8 @@ func c06run(out *evid.Out, f *evid.Flags, run int) {
 	procs := []int{16, 16, 2, 1}[run%4]
 	old := runtime.GOMAXPROCS(procs)
 	defer runtime.GOMAXPROCS(old)
-	destKind := run % 5 // 0 plain, 1 SyncWriter, 2 Multi of two, 3 ConsoleWriter, 4 log.Logger global
-	withSampler := run%3 == 0 && destKind != 3
+	destKind := run % 6 // 0 plain, 1 SyncWriter, 2 Multi of two, 3 ConsoleWriter literal, 4 log.Logger global, 5 NewConsoleWriter(...)
+	withSampler := run%3 == 0 && destKind != 3 && destKind != 5
 	st := gen.DefaultSettings()
 	st.GlobalLevel = zerolog.TraceLevel
 	restore := st.Apply()
@@ -186,6 +186,11 @@ func c06run(out *evid.Out, f *evid.Flags, run int) {
 		case 3:
 			a := newW6("console-out", true, delay, viol)
 			return zerolog.ConsoleWriter{Out: a, NoColor: true, TimeFormat: time.RFC3339, TimeLocation: time.UTC}, []*cw6{a}
+		case 5:
+			a := newW6("newconsole-out", true, delay, viol)
+			return zerolog.NewConsoleWriter(func(w *zerolog.ConsoleWriter) {
+				w.Out, w.NoColor, w.TimeFormat, w.TimeLocation = a, true, time.RFC3339, time.UTC
+			}), []*cw6{a}
 		}
 		a := newW6("plain", false, delay, viol)
 		return a, []*cw6{a}
@@ -222,7 +227,7 @@ func c06run(out *evid.Out, f *evid.Flags, run int) {
 		case 2:
 			capW[0], capW[1] = &capture6{m: map[string][]byte{}}, &capture6{m: map[string][]byte{}}
 			root = zerolog.MultiLevelWriter(capW[0], capW[1])
-		case 3:
+		case 3, 5:
 			capW[0] = &capture6{m: map[string][]byte{}, console: true}
 			root = zerolog.ConsoleWriter{Out: capW[0], NoColor: true, TimeFormat: time.RFC3339, TimeLocation: time.UTC}
 		default:
